@@ -41,7 +41,9 @@ def check_valid(p, v, col):
         if len(vsrc) < 200:
             col.sample({"T": mat.root_expr, "v": vsrc})
     before = snapshot(v)
-    k, r = tl.call(tl.unmarshal, p.T, v)
+    route = len(vsrc) % 3     # the function, the routine object, the codec's own unmarshal step
+    k, r = (tl.call(tl.unmarshal, p.T, v) if route == 0 else tl.call(lambda: tl.unmarshaller(p.T)(v)) if route == 1
+            else tl.call(lambda: tl.codec(p.T).unmarshal(v)))
     case = p.case(value=vsrc)
     if k == "exc":
         col.violation("pass-through", case, f"unmarshal({mat.root_expr}, {vsrc[:160]}) raised {tl.exc_name(r)}: {r}",
